@@ -208,6 +208,8 @@ theorem convAncil_conv {s f f' : St} (hs : Core s) (hf : Conv s f) {v : Option K
     | none => simp only [hg, Option.some.injEq] at h; subst h; exact hf
     | some dc =>
       simp only [hg] at h
+      split at h
+      · cases h
       cases hr : setConstruct true f false .dan dc (some v) (s.caxes.get v) with
       | mk f1 o =>
         rw [hr] at h
@@ -228,6 +230,8 @@ theorem convAncil_mono {s f f' : St} {v : Option Key} (h : convAncil true s f v 
     | none => simp only [hg, Option.some.injEq] at h; subst h; exact fun _ hq => hq
     | some dc =>
       simp only [hg] at h
+      split at h
+      · cases h
       cases hr : setConstruct true f false .dan dc (some v) (s.caxes.get v) with
       | mk f1 o =>
         rw [hr] at h
@@ -245,6 +249,8 @@ theorem convAncil_est {s f f' : St} {v : Option Key} (h : convAncil true s f v =
   | none => simp [hg] at hx
   | some dc =>
     simp only [hg] at h
+    split at h
+    · cases h
     cases hr : setConstruct true f false .dan dc (some x) (s.caxes.get x) with
     | mk f1 o =>
       rw [hr] at h
